@@ -691,8 +691,94 @@ def r6_window_per_path(repo=None):
     return r
 
 
+def r7_not_a_time_is_rejected(repo=None):
+    """'accepts an event for a path exactly when a listing ... would list a finalized file at that path', for the near-miss names of
+    the quantifier too: a sub-directory name that fits the pattern but is not a date (month 13) and a file number that is not a
+    time (15 digits) are skipped by the listing (C14.R9: the constructions from the regex groups sit in try / except there).  The
+    filter must reject the same paths - and must not let the construction raise out of dispatch(), which ends the observer thread.
+    Decided on the method that turns a regex match into acceptance: its acceptance condition (a propositional formula) implies a
+    call of a validity helper, and that helper - every path enumerated (pyform) - returns a false value whenever building the
+    datetime from the date groups or the timedelta from the `secs` group raised."""
+    from .. import pyform, cbool, pybool
+    r = Rule("C15.R7", "a path whose numbers are not a date / a time is rejected by the event filter, as by the listing")
+    m = pyfront.mod("watchdog_drf", repo)
+    # the method that accepts: private method of the handler with a regex .match(...) call whose result guards `= True` / `return True`
+    accept = []
+    for name, f in m.methods(H).items():
+        if not name.startswith("_") or name.startswith("__"):
+            continue
+        for iff in ast.walk(f):
+            if isinstance(iff, ast.If) and any((isinstance(x, ast.Assign) and pyfront.const(x.value) is True) or
+                                               (isinstance(x, ast.Return) and pyfront.const(x.value) is True) for x in iff.body) \
+                    and any(isinstance(c, ast.Call) and isinstance(c.func, ast.Attribute) and c.func.attr == "match" for c in ast.walk(f)):
+                accept.append((name, f, iff))
+    if len(accept) != 1:
+        raise AnalysisError("%s: the method that turns a regex match into acceptance was not found exactly once (%s)" % (H, [a[0] for a in accept]))
+    name, f, iff = accept[0]
+    q = "%s.%s" % (H, name)
+    form = pybool.truth(iff.test)
+    helpers = [c for c in ast.walk(iff.test) if isinstance(c, ast.Call) and isinstance(c.func, ast.Attribute)
+               and isinstance(c.func.value, ast.Name) and c.func.value.id == "self" and "%s.%s" % (H, c.func.attr) in m.functions]
+
+    def rejecting(hq):
+        """(date ok, time ok): the helper returns a false value on every path where the datetime / timedelta construction raised"""
+        outs = pyform.outcomes(m.flat(hq).fn())
+        res = {}
+        for what, call_txt, grp in (("date", "datetime.datetime(", "year"), ("time", "datetime.timedelta(", "secs")):
+            ats = {a for o in outs for a in cbool.atoms(o.cond) if a.startswith("raises:") and call_txt in a and grp in a}
+            if not ats:
+                res[what] = None
+                continue
+            ok = True
+            for o in outs:
+                for a in ats:
+                    # outcomes on which this construction raised
+                    if not pyform._unsat(cbool.conj([o.cond, ("atom", a)])) and pyform._unsat(cbool.conj([o.cond, ("not", ("atom", a))])):
+                        if not (o.value is None or (isinstance(o.value, ast.Constant) and not o.value.value)):
+                            ok = False
+            res[what] = ok
+        return res
+    verdicts = []
+    for c in helpers:
+        hq = "%s.%s" % (H, c.func.attr)
+        try:
+            res = rejecting(hq)
+        except AnalysisError:
+            continue
+        if res.get("date") or res.get("time"):
+            implied, _w = cbool.equivalent(cbool.conj([form, ("not", pybool.truth(c))]), ("false",))
+            verdicts.append((c, res, implied))
+    date_ok = any(v[1].get("date") and v[2] for v in verdicts)
+    time_ok = any(v[1].get("time") and v[2] for v in verdicts)
+    for what, ok_, example in (("date", date_ok, "a file in `ch/2016-13-01T00-00-00/`"), ("time", time_ok, "`rf@100000000000000.000.h5`")):
+        site = "%s:%s %s (%s)" % (m.rel, iff.lineno, q, what)
+        if ok_:
+            c = [v[0] for v in verdicts if v[1].get(what) and v[2]][0]
+            r.ok(site, "acceptance implies `%s`, which is false whenever the %s built from the match raised" % (
+                norm(ast.unparse(c)), "datetime" if what == "date" else "timedelta"))
+        else:
+            # a guarded construction somewhere in the handler that this rule could not tie to the acceptance: not decided
+            exc = "ValueError" if what == "date" else "OverflowError"
+            ctor = "datetime.datetime" if what == "date" else "datetime.timedelta"
+            guarded_somewhere = any(
+                isinstance(t_, ast.Try) and any(h_.type is not None and exc in ast.unparse(h_.type) for h_ in t_.handlers)
+                and any(isinstance(c_, ast.Call) and pyfront.call_name(c_) == ctor for st_ in t_.body for c_ in ast.walk(st_))
+                for f_ in m.methods(H).values() for t_ in ast.walk(f_))
+            if guarded_somewhere:
+                raise AnalysisError("%s: a %s construction guarded against %s exists in the handler but the acceptance condition `%s` "
+                                    "was not shown to imply it" % (q, ctor, exc, norm(ast.unparse(iff.test))[:60]))
+            r.violation(m.rel, q, "acceptance `%s` has no %s validity test" % (norm(ast.unparse(iff.test))[:70], what),
+                        "the listing skips a name whose numbers are not a %s (%s) but the event filter decides on the regular "
+                        "expression alone: it %s" % (what, example, "accepts events for files the listing never lists (a rename into such "
+                        "a directory is delivered as `moved` instead of `deleted`)" if what == "date" else
+                        "builds the timedelta unguarded and OverflowError leaves dispatch(), which ends the observer thread of watch, "
+                        "mirror and ringbuffer"), line=iff.lineno)
+    r.guard(2)
+    return r
+
+
 def rules(repo=None):
-    return [lambda: r1_same_constants(repo), lambda: r2_tables_agree(repo), lambda: r3_no_tmp_no_dirs(repo),
+    return [lambda: r7_not_a_time_is_rejected(repo), lambda: r1_same_constants(repo), lambda: r2_tables_agree(repo), lambda: r3_no_tmp_no_dirs(repo),
             lambda: r4_move_conversion(repo), lambda: r5_inclusive_window(repo), lambda: r6_window_per_path(repo)]
 
 
